@@ -285,7 +285,12 @@ kdump_clone(const kdump_ctx_t *orig, unsigned long flags)
  err_shared:
 	list_del(&ctx->list);
 	shared_decref_locked(ctx->shared);
+	for (slot = 0; slot < PER_CTX_SLOTS; ++slot)
+		if (orig->shared->per_ctx_size[slot])
+			free(ctx->data[slot]);
 	rwlock_unlock(&orig->shared->lock);
+	addrxlat_ctx_decref(ctx->xlatctx);
+	err_cleanup(&ctx->err);
 	free(ctx);
 	return NULL;
 }
